@@ -83,6 +83,67 @@ def cut_stream_scenario(rng, res, count):
                 res["violations"].append(("rerun-does-not-reach-uninterrupted-result", f"the same command after the sender died mid-stream: rc={rr.returncode}, differs at {diff[:4]} (the destination keeps its old bytes); {rr.stderr.decode('utf-8', 'replace')[-200:]}", rep))
 
 
+def busy_destination_scenario(rng, res, count):
+    """C09, local and pull: ONE destination file cannot be replaced by rename — it is a mount point (a bind-mounted single file, as
+    container volumes have them): `rename` over it fails with EBUSY. Whatever the run does about that (fail the file, as the
+    unchanged code does, or fall back to another way of delivering it — seed C09-M copied the staged bytes INTO the live file), a
+    kill before any of its calls on that file or its staging sibling leaves the file complete-old or complete-new, and the other
+    planned file too. Skipped (counted) where bind mounts are not permitted."""
+    new, old = mk(rng, 400_000), mk(rng, 300_000)
+    src = {"conf/app.bin": new, "conf/plain.txt": b"plain new\n"}
+    dst = {"conf/app.bin": old, "conf/plain.txt": b"plain old version\n"}
+    n = 0
+    for direction in ("local", "pull"):
+        with Sandbox("C09busy") as sb:
+            W = sb.path("W"); whome = os.path.join(W, "home"); os.makedirs(whome)
+            sb.env["HOME"] = whome; sb.env["SSH_STUB_HOME"] = whome
+            if direction == "local":
+                sroot, droot = os.path.join(W, "src"), os.path.join(W, "dst"); sarg = sroot
+            else:
+                sroot, droot = os.path.join(whome, "rsrc"), os.path.join(W, "dst"); sarg = f"{HOST}:rsrc"
+            write_tree(sroot, src, {k: 1_650_000_000 + i for i, k in enumerate(sorted(src))})
+            write_tree(droot, dst, {k: 1_500_000_000 for k in dst})
+            backing = sb.path("backing.bin")
+            open(backing, "wb").write(old); os.utime(backing, (1_500_000_000, 1_500_000_000))
+            target = os.path.join(droot, "conf/app.bin")
+            m = subprocess.run(["mount", "--bind", backing, target], stdout=subprocess.PIPE, stderr=subprocess.PIPE)
+            if m.returncode != 0:
+                count("busy-destination/skipped-no-bind-mount")
+                continue
+            try:
+                cmd = [CLI_BIN, "sync", "-r", "--jobs", "1", sarg, droot]
+                def reset():
+                    open(backing, "wb").write(old); os.utime(backing, (1_500_000_000, 1_500_000_000))
+                    for fn in os.listdir(os.path.join(droot, "conf")):
+                        if fn.endswith(".copia-tmp"):
+                            os.remove(os.path.join(droot, "conf", fn))
+                    p2 = os.path.join(droot, "conf/plain.txt")
+                    open(p2, "wb").write(dst["conf/plain.txt"]); os.utime(p2, (1_500_000_000, 1_500_000_000))
+                tpaths = [target, target + ".copia-tmp"]
+                for sc in ("openat", "write", "pwrite64", "copy_file_range", "sendfile", "rename", "ftruncate", "fchmod", "utimensat", "fsync", "unlink", "unlinkat"):
+                    for j in (1, 2, 3, 4, 5, 6):
+                        reset()
+                        kr = subprocess.run(["strace", "-f", "-b", "execve", "-qq", "-o", "/dev/null", "-P", tpaths[0], "-P", tpaths[1], "-e", f"trace={sc}",
+                                             "-e", f"inject={sc}:signal=SIGKILL:when={j}"] + cmd, env=sb.env, cwd=sb.dir, stdout=subprocess.PIPE, stderr=subprocess.PIPE)
+                        if kr.returncode >= 0:
+                            break                   # not killed: fewer than j such calls on this file
+                        n += 1
+                        count(f"busy-destination/{direction}/{sc}")
+                        time.sleep(0.05)
+                        after = read_tree(droot)
+                        rep = {"direction": direction, "destination": "conf/app.bin is a bind-mounted file (rename over it fails with EBUSY)",
+                               "killed_before": f"{sc} #{j} on conf/app.bin or its staging sibling", "rc": kr.returncode}
+                        for q, c in nonstaging(after).items():
+                            if c != dst.get(q) and c != src.get(q):
+                                res["violations"].append(("truncated-or-mixed-file-at-live-path", f"after the kill, destination {q} holds {len(c)} bytes that are neither its old bytes ({len(dst.get(q, b''))}) nor the complete source file ({len(src.get(q, b''))} bytes)", rep))
+                        for q in dst:
+                            if q not in after:
+                                res["violations"].append(("destination-file-missing-after-kill", f"after the kill, destination {q} is missing", rep))
+            finally:
+                subprocess.run(["umount", "-l", target], stdout=subprocess.PIPE, stderr=subprocess.PIPE)
+    return n
+
+
 def delete_rerun_scenario(rng, res, count):
     """C09, second sentence: `sync -r --delete --jobs 4`, killed right before the rename of one file (its staging file is left
     behind and — not being filtered from the destination listing — is a planned delete of the next run). The same command again,
@@ -152,6 +213,7 @@ def run(pid, tier, seed, rundir, model_run):
         if direction == "push-samelen":
             cut_stream_scenario(rng, res, count)
             delete_rerun_scenario(rng, res, count)
+            nk += busy_destination_scenario(rng, res, count)
             continue
         if longlist:
             direction = "push"
